@@ -55,6 +55,9 @@ func e1Specs(prop, tier string) []engines.E1Spec {
 				engines.E1Spec{Name: "flags-on-existing/none/rs20", Cfg: cfgNone, Setup: []ops.Op{{K: "put", P: "/f", C: "hello"}}, Alphabet: append(engines.FlagAlphabet("/f"), ops.Op{K: "remove", P: "/f"}), Depth: d, Oracles: or},
 				engines.E1Spec{Name: "flags-on-missing/none/rs20", Cfg: cfgNone, Setup: []ops.Op{{K: "mkdir", P: "/d"}}, Alphabet: append(engines.FlagAlphabet("/d/f"), ops.Op{K: "remove", P: "/d/f"}, ops.Op{K: "openw", P: "/nodir/f", N: os.O_RDWR | os.O_CREATE}), Depth: d, Oracles: or})
 		}
+		if prop == "C05" {
+			specs = append(specs, engines.E1Spec{Name: "A-small/none/rs20/overwrite-manager", Cfg: rig.Config{RecordSize: 20, Overwrite: true}, Alphabet: engines.SmallA(), Depth: 3, Oracles: or})
+		}
 		if prop == "C01" || prop == "C05" {
 			d := 3
 			if tier != "quick" {
@@ -158,7 +161,7 @@ func e1Specs(prop, tier string) []engines.E1Spec {
 							depth := 1
 							if tier == "quick" {
 								// quick: small shapes, short names everywhere, long names only for one shape, rs 20 only
-								if len(sh) > 6 || rs != 20 || (nc != "short" && sh != "((f)f)") {
+								if len(sh) > 6 || rs != 20 || (nc != "short" && sh != "(f(f))") {
 									continue
 								}
 							} else {
@@ -178,6 +181,16 @@ func e1Specs(prop, tier string) []engines.E1Spec {
 								alpha = follow[:2]
 							}
 							out = append(out, engines.E1Spec{Name: fmt.Sprintf("T/%s/rs%d", f, rs), Cfg: rig.Config{RecordSize: rs}, Foreign: &f, Alphabet: alpha, Depth: depth, Oracles: []string{"C17", "C01x"}})
+							if sh == "(f(f))" && nc == "short" && rs == 20 {
+								// deeper follow-ups on one shape per format and root style: add / remove / re-add next to foreign members,
+								// also after the index has been rebuilt from the tape
+								deep := []ops.Op{{K: "put", P: "/new", C: "added"}, {K: "remove", P: "/new"}, {K: "put", P: "/d0/added", C: "T513:1"}, {K: "remove", P: "/d0/added"}, {K: "rebuild"}}
+								d := 3
+								if tier != "quick" {
+									d = 4
+								}
+								out = append(out, engines.E1Spec{Name: fmt.Sprintf("T-deep/%s/rs%d", f, rs), Cfg: rig.Config{RecordSize: rs}, Foreign: &f, Alphabet: deep, Depth: d, Oracles: []string{"C17", "C01x"}})
+							}
 						}
 					}
 				}
@@ -461,7 +474,12 @@ func runC03(rep *engines.Report, p *pool.Pool, tier string) int {
 									contents = append(contents, fmt.Sprintf("%s%d:%d", f, n, n%7))
 								}
 							}
-							jobs = append(jobs, &engines.C03Job{Cfg: rig.Config{Compression: c, Level: l, Encryption: e, Signature: s, RecordSize: rs, WriteCache: wc}, Contents: contents})
+							// every content once per write pattern: rotate the pattern assignment over configurations so that each
+							// (length class, pattern) pair occurs under every pipeline family
+							pats := []int{0, 1, 2, 3}
+							rot := len(jobs) % 4
+							pats = append(pats[rot:], pats[:rot]...)
+							jobs = append(jobs, &engines.C03Job{Cfg: rig.Config{Compression: c, Level: l, Encryption: e, Signature: s, RecordSize: rs, WriteCache: wc}, Contents: contents, Patterns: pats})
 						}
 					}
 				}
@@ -536,10 +554,11 @@ func runC03(rep *engines.Report, p *pool.Pool, tier string) int {
 
 func runC18(rep *engines.Report, p *pool.Pool, tier string) int {
 	rep.Level = "exploration"
-	pws := []string{"", "pässwörd-日本"}
+	// password classes: empty, ASCII, the same with white space at an edge (must be a DIFFERENT password), multi-byte, long
+	pws := []string{"", "pw", "pw ", "pässwörd-日本"}
 	pairs := 2
 	if tier != "quick" {
-		pws = []string{"", "a", strings.Repeat("x", 64), "pässwörd-日本", strings.Repeat("k9", 512)}
+		pws = []string{"", "pw", "pw ", " pw", "pw\n", " ", strings.Repeat("x", 64), "pässwörd-日本", "日本 ", strings.Repeat("k9", 512)}
 	}
 	jobs := []interface{}{}
 	for _, kind := range []string{"enc-age", "enc-pgp", "sig-minisign", "sig-pgp"} {
